@@ -783,14 +783,27 @@ func (p *c28Pair) mutate(op *scn.Op, newMsg func() proto.Message) string {
 			}
 		case "roundtrip-json":
 			var b []byte
-			b, err = protojson.MarshalOptions{AllowPartial: true}.Marshal(p.m)
+			// the output options must not change what a round trip preserves: unpopulated fields with
+			// presence come out as null (or not at all) and stay unset; unpopulated fields without presence
+			// come out as zero values or empty lists/maps, which populate nothing
+			jo := protojson.MarshalOptions{AllowPartial: true, UseProtoNames: op.M&4 != 0, UseEnumNumbers: op.M&8 != 0}
+			switch op.M % 4 {
+			case 1:
+				jo.EmitUnpopulated = true
+			case 2:
+				jo.EmitDefaultValues = true
+			}
+			if op.M&16 != 0 {
+				jo.Multiline = true
+			}
+			b, err = jo.Marshal(p.m)
 			if err == nil {
 				err = (protojson.UnmarshalOptions{AllowPartial: true}).Unmarshal(b, fresh)
 				stripUnknown(p.am) // JSON does not carry unknown fields
 			}
 		case "roundtrip-text":
 			var b []byte
-			b, err = prototext.MarshalOptions{AllowPartial: true}.Marshal(p.m)
+			b, err = prototext.MarshalOptions{AllowPartial: true, Multiline: op.M&1 != 0}.Marshal(p.m)
 			if err == nil {
 				err = (prototext.UnmarshalOptions{AllowPartial: true}).Unmarshal(b, fresh)
 				stripUnknown(p.am)
